@@ -116,6 +116,7 @@ CHECKS["C13"] = dict(
     rule="(a) non-trivial = history containing a merge whose payload entry has one changed and one unchanged time field; (b) non-trivial = >=2 payloads queued. "
          "distinct = distinct case value.",
     legs=[dict(name="delta", test="^TestDeltaExact$", quick=dict(n=4000, procs=4, timeout=300), thorough=dict(n=250000, procs=12, timeout=2400)),
+          dict(name="concurrent-merges", test="^TestDeltaUnderConcurrency$", quick=dict(n=3000, procs=4, timeout=300), thorough=dict(n=200000, procs=12, timeout=2400)),
           dict(name="sender", test="^(TestProbeCoalescedLost|TestSenderQueue)$", quick=dict(n=8000, procs=2, timeout=300), thorough=dict(n=300000, procs=4, timeout=2400))],
 )
 
@@ -311,6 +312,7 @@ CHECKS["C14"] = dict(
                "acknowledgement (process death only, no power-loss model).",
     rule="rapid-generated histories; non-trivial = a use of a key that has been toggled at least twice, or a restart after a toggle; distinct = distinct case value.",
     legs=[dict(name="ban", test="^TestBan$", quick=dict(n=200, procs=4, batch=30, timeout=400), thorough=dict(n=12000, procs=14, batch=60, timeout=1200)),
+          dict(name="in-use", test="^TestBanWhileKeyInUse$", kind="plain", quick=dict(n=2, procs=2, timeout=400), thorough=dict(n=80, procs=4, batch=10, timeout=1800)),
           dict(name="kill", test="^TestBanSurvivesKill$", quick=dict(n=12, procs=4, timeout=400), thorough=dict(n=600, procs=10, timeout=2400))],
 )
 
